@@ -494,6 +494,7 @@ class POP3CommandHandler:
                 #
                 expunge_cmd = IMAPClientCommand("POP3 EXPUNGE")
                 expunge_cmd.command = IMAPCommand.EXPUNGE
+                expunge_cmd.expunge_regardless = True
                 async with expunge_cmd.ready_and_okay(self.mbox):
                     await self.mbox.expunge(
                         uid_msg_set=uids_to_delete,
